@@ -47,6 +47,7 @@ const NODES: usize = 4;
 const D: Duration = Duration::from_secs(20);
 
 struct Rec {
+    /// taken by the harness just before the call: no execution can reach a node earlier than k x interval after it
     t0: Mutex<Option<Instant>>,
     /// (node, arrival ms since first frame, answer delay, answer)
     seen: Mutex<Vec<(usize, u64, u16, Ans)>>,
@@ -103,6 +104,7 @@ fn run_case(env: &Env, c: &Case) -> Verdict {
     let out = env.rt.block_on(async {
         let fut = async {
             use futures::TryStreamExt;
+            *rec.t0.lock().unwrap() = Some(Instant::now());
             let first_row = |q: scylla::response::query_result::QueryResult| q.into_rows_result().ok().and_then(|rr| rr.first_row::<(i32,)>().ok()).map(|x| x.0);
             if c.prepared {
                 let mut p = session.prepare(text.clone()).await.map_err(|e| format!("PREPARE:{e}"))?;
@@ -159,8 +161,9 @@ fn run_case(env: &Env, c: &Case) -> Verdict {
     vassert!(seen.len() <= 1 + c.max as usize, "too_many_executions", "{} frames with max_retry_count={}: {seen:?}", seen.len(), c.max);
     for k in 1..seen.len() {
         vassert!(!seen[..k].iter().any(|s| s.0 == seen[k].0), "target_reused", "execution {k} went to node {} which an earlier execution of the same request already used: {seen:?}", seen[k].0);
-        // not earlier than its turn (scheduling may only delay)
-        vassert!(seen[k].1 + 6 >= k as u64 * c.interval_ms as u64, "speculated_early", "execution {k} arrived {} ms after the first with interval {} ms", seen[k].1, c.interval_ms);
+        // not earlier than its turn, measured from before the call (scheduling and transport can only delay an arrival;
+        // 2 ms allowance for the millisecond granularity of the timer and of this measurement)
+        vassert!(seen[k].1 + 2 >= k as u64 * c.interval_ms as u64, "speculated_early", "execution {k} reached its node {} ms after the call was made, with interval {} ms", seen[k].1, c.interval_ms);
     }
     // the answer belongs to one of the executions, and a real answer (success / definitive error) beats ignorable ones
     let completion = |s: &(usize, u64, u16, Ans)| s.1 + s.2 as u64;
